@@ -677,12 +677,40 @@ func check(id, tier string, only int, onlyStream string, writeEvidence bool) int
 	// build worker from /repo's current tree
 	worker := root + "/build/worker-" + cfg.engine
 	bargs := []string{"build", "-tags", "verif"}
+	overlayFiles := 0
 	if cfg.race {
 		worker += "-race"
 		bargs = append(bargs, "-race")
+		if os.Getenv("VERIF_NO_OVERLAY") == "" {
+			opath, n, err := makeOverlay(root, harness)
+			if err != nil {
+				fmt.Printf("BROKEN: cannot prepare the build overlay: %v\n", err)
+				return 2
+			}
+			overlayFiles = n
+			if n > 0 {
+				bargs = append(bargs, "-overlay", opath)
+			}
+		}
 	}
 	bargs = append(bargs, "-o", worker, "./cmd/"+cfg.engine)
-	if out, err := run(harness, env(), "go", bargs...); err != nil {
+	out, err := run(harness, env(), "go", bargs...)
+	if err != nil && overlayFiles > 0 {
+		// the rewritten copies may not compile (a use of package sync that verif/vsync does not
+		// offer): build from the plain sources rather than fail the check
+		plain := []string{}
+		for k := 0; k < len(bargs); k++ {
+			if bargs[k] == "-overlay" {
+				k++
+				continue
+			}
+			plain = append(plain, bargs[k])
+		}
+		if out2, err2 := run(harness, env(), "go", plain...); err2 == nil {
+			out, err, bargs, overlayFiles = out2, nil, plain, 0
+		}
+	}
+	if err != nil {
 		if cfg.gen && genNote != "pinned-fallback" {
 			// freshly generated code may not compile: fall back to pinned copies
 			if err2 := usePinned(harness); err2 == nil {
@@ -822,6 +850,7 @@ func check(id, tier string, only int, onlyStream string, writeEvidence bool) int
 			pert = append(pert, perturbFor(s+int(seed&0xffff), only >= 0))
 		}
 		cov["lock_boundary_perturbation_permille_by_shard"] = pert
+		cov["source_files_built_with_perturbed_mutexes"] = overlayFiles
 		cov["race_reports"] = raceKeys
 		cov["race_detector"] = "on"
 	}
